@@ -1,7 +1,8 @@
 """C15 — nearest-better clustering returns exactly the defined cluster seeds."""
 from .. import nbc_direct
 
-FRONT_ENDS = ["nbc"]
+FRONT_ENDS = ["nbc", "generators"]
+FRONT_END_FILTER = {"generators": ("NearestBetterClustering", "clustering", "NBC")}
 EXPLANATION = "NBC algorithm as coded vs its definition, for all sorted fitness vectors, distance matrices and thresholds; real NearestBetterClustering vs model under vm_compute; brute-force definition and metamorphic monitors"
 ASSUMPTIONS = ["pairwise distinct genomes and floor(n*truncation) >= 1 (the property's domain)",
                "distances and their mean are computed by numpy (policy 3): the model takes the recorded distance keys and threshold; the monitor re-derives the mean in exact rational "
@@ -19,6 +20,8 @@ def run(ctx):
 def replay(ctx, data):
     if data.get("kind") == "obligation-broken":
         return False, "obligation replay: " + "; ".join(map(str, data.get("no_longer_checks", [])))[:600]
+    if data.get("replay_fn") == "nbc-generator":
+        return False, str(data.get("what"))[:400]
     c = data["case"]
     r = nbc_direct.run_real(c["G"], c["F"], c["mx"], c["factor"], c["trunc"])
     want, kn = nbc_direct.definition(c["G"], c["F"], c["mx"], c["factor"], r["kept"], r["sorted"])
